@@ -443,6 +443,19 @@ def binop(ev, op, a, b, node, fr):
             and kind == "number" and not shape and x.is_Rational and y.is_Rational and sp.sympify(r).is_Rational:
         # both operands are concrete doubles: fold with IEEE semantics (the exact result rounded to nearest-even double)
         r = round_to_double(sp.sympify(r))
+    elif getattr(ev, "float_fold", False) and isinstance(op, (ast.Add, ast.Sub, ast.Mult, ast.Div)) and (a.isfloat or b.isfloat) and tag != "unit":
+        # concrete doubles carrying units (or a uniform array of them): value (op) value is one rounded double operation, the units
+        # combine symbolically.  Only when every unit involved is a power of the coherent base unit, so that no scale factor enters.
+        def split(e_):
+            c_, rest = sp.sympify(e_).as_coeff_Mul()
+            return (c_, rest) if c_.is_Rational and (rest.free_symbols <= UNIT_SYMS) else (None, None)
+        cx, _ = split(x)
+        cy, _ = split(y)
+        cr, rest = split(r)
+        if cx is not None and cy is not None and cr is not None and (cx != 1 or not a.tag == "unit") and is_double(cx) and is_double(cy):
+            r = round_to_double(cr) * rest
+            if tag == "unit":
+                unit = r
     out = Num(r, kind=kind, shape=shape, axes=axes, unit=unit, tag=tag,
               backend=a.backend or b.backend, dtype=a.dtype or b.dtype,
               isfloat=a.isfloat or b.isfloat or isinstance(op, ast.Div) or kind in ("quantity", "time"))
@@ -1055,6 +1068,8 @@ def val_getattr(ev, obj, name, fr, node):
             return StrV("")
         return BoundBuiltin(obj, name)
     if isinstance(obj, OpaqueV):
+        if obj.what == "finfo" and name in obj.payload:
+            return obj.payload[name]
         if obj.what == "array0d":
             if name == "ndim":
                 return Num(0)
@@ -2036,6 +2051,28 @@ def h_sorted(ev, args, kwargs, fr, node):
         keyed.append((_sort_key(ev, kv, node, fr), it))
     idx = sorted(range(len(keyed)), key=lambda i: keyed[i][0], reverse=bool(isinstance(rev, BoolV) and rev.b))
     return ListV([keyed[i][1] for i in idx])
+
+
+def h_finfo(ev, args, kwargs, fr, node):
+    """np.finfo(float / np.float64 / np.float32 ...): the machine parameters used by the package (eps, tiny, max, resolution)."""
+    x = args[0] if args else ExtV("builtins.float")
+    nm = _dtype_name(x) if not (isinstance(x, ExtV) and x.dotted in ("builtins.float",)) else "float64"
+    if isinstance(x, Num):
+        nm = _dtype_name(x.dtype) or "float64"
+    if nm in ("complex128",):
+        nm = "float64"
+    if nm in ("complex64",):
+        nm = "float32"
+    table = {"float64": (sp.Rational(1, 2**52), sp.Rational(1, 2**1022), (2 - sp.Rational(1, 2**52)) * 2**1023),
+             "float32": (sp.Rational(1, 2**23), sp.Rational(1, 2**126), (2 - sp.Rational(1, 2**23)) * 2**127),
+             "float16": (sp.Rational(1, 2**10), sp.Rational(1, 2**14), sp.Integer(65504))}
+    if nm not in table:
+        ev.unsupported(f"np.finfo of {x!r}", node, fr)
+    eps, tiny, mx = table[nm]
+    o = OpaqueV("finfo", {"eps": Num(eps, isfloat=True), "tiny": Num(tiny, isfloat=True), "smallest_normal": Num(tiny, isfloat=True),
+                          "max": Num(mx, isfloat=True), "min": Num(-mx, isfloat=True), "epsneg": Num(eps / 2, isfloat=True),
+                          "dtype": ExtV("numpy." + nm)})
+    return o
 
 
 def h_asdict(ev, args, kwargs, fr, node):
@@ -3501,6 +3538,7 @@ EXT = {
     "numpy.promote_types": lambda ev, a, k, fr, n: h_result_type(ev, a, k, fr, n),
     "numpy.empty": lambda ev, a, k, fr, n: h_zeros(ev, a, k, fr, n),
     "functools.reduce": lambda ev, a, k, fr, n: h_reduce(ev, a, k, fr, n),
+    "numpy.finfo": lambda ev, a, k, fr, n: h_finfo(ev, a, k, fr, n),
     "dataclasses.asdict": h_asdict, "operator.itemgetter": h_itemgetter, "operator.attrgetter": h_attrgetter,
     "operator.or_": lambda ev, a, k, fr, n: binop(ev, ast.BitOr(), a[0], a[1], n, fr),
     "operator.and_": lambda ev, a, k, fr, n: binop(ev, ast.BitAnd(), a[0], a[1], n, fr),
